@@ -5,9 +5,16 @@ Correspondence: gating store under the REAL SessionStoreImpl / in-memory + redis
 import json, os, re
 from collections import Counter
 
+
+def vlib_repo():
+    import vlib
+    return vlib.REPO
+
 PKG = "storage"
 HARNESS = ["storage/zz_verif_c05_test.go", "storage/zz_verif_c05_export.go"]
-HARNESSES = [(PKG, HARNESS, "c05")]
+IAM_PKG = "auth/api/iam"
+IAM_HARNESS = ["auth/api/iam/zz_verif_c05_test.go", "storage/zz_verif_c05_export.go"]
+HARNESSES = [(PKG, HARNESS, "c05"), (IAM_PKG, IAM_HARNESS, "c05iam")]
 
 BURN = {"code", "reqobj", "vpnonce", "redirect"}
 TTL_FACT = {"code": "ttl_oauthCodeStore", "reqobj": "ttl_authzRequestObjectStore", "vpnonce": "ttl_oauthNonceStore",
@@ -75,27 +82,39 @@ def run(ctx):
         "single node: atomicity obtained from an in-process mutex does not extend to several nodes sharing one Redis/memcached",
         "secrets are issued under fresh random keys (no Put of an existing burn-on-use key): regenerated fact fact_store_users pins the issuing functions",
     ]
-    binary = ctx.go_test_binary(PKG, HARNESS, "c05")
-    if binary is None:
-        ctx.oblige("harness-builds", False, ctx.harness_error[-1500:])
-        return
-    ctx.oblige("harness-builds", True)
-    env = {}
-    if ctx.replay:
-        env["VERIF_REPLAY"] = os.path.abspath(ctx.replay)
-    else:
-        env["VERIF_CORPUS"] = os.path.join(os.path.dirname(os.path.dirname(os.path.abspath(__file__))), "harness", "corpus", "C05")
-        env["VERIF_MAXRUNS"] = 40000 if ctx.thorough else 4000
-    rc, log, out = ctx.run_harness(binary, "TestVerifC05", env, timeout=3000)
-    if rc != 0:
-        ctx.oblige("harness-runs", False, log[-1500:])
-        return
-    ctx.oblige("harness-runs", True)
-    ops_p, impl_p, model_p = (os.path.join(out, x) for x in ("ops.jsonl", "impl.out", "model.out"))
-    ok, err = ctx.model("C05", ops_p, model_p)
-    ctx.oblige("model-driver-runs", ok, err[-500:])
-    impl, model, bad = ctx.compare(impl_p, model_p)
-    ops = ctx.read_lines(ops_p)
+    corpus = os.path.join(os.path.dirname(os.path.dirname(os.path.abspath(__file__))), "harness", "corpus", "C05")
+    ops, impl, model, bad = [], [], [], []
+    for pkg, files, name, cwd in ((PKG, HARNESS, "c05", None), (IAM_PKG, IAM_HARNESS, "c05iam", os.path.join(vlib_repo(), IAM_PKG))):
+        binary = ctx.go_test_binary(pkg, files, name)
+        if binary is None:
+            ctx.oblige("harness-builds:" + name, False, ctx.harness_error[-1500:])
+            continue
+        ctx.oblige("harness-builds:" + name, True)
+        env = {}
+        if ctx.replay:
+            env["VERIF_REPLAY"] = os.path.abspath(ctx.replay)
+        else:
+            env["VERIF_CORPUS"] = corpus
+            env["VERIF_MAXRUNS"] = 40000 if ctx.thorough else 4000
+        out = os.path.join(ctx.scratch, "out-" + name)
+        rc, log, out = ctx.run_harness(binary, "TestVerifC05", env, outdir=out, timeout=3000, cwd=cwd)
+        if rc != 0:
+            ctx.oblige("harness-runs:" + name, False, log[-1500:])
+            continue
+        ctx.oblige("harness-runs:" + name, True)
+        ops_p, impl_p, model_p = (os.path.join(out, x) for x in ("ops.jsonl", "impl.out", "model.out"))
+        ok, err = ctx.model("C05", ops_p, model_p)
+        ctx.oblige("model-driver-runs:" + name, ok, err[-500:])
+        i1, m1, b1 = ctx.compare(impl_p, model_p)
+        o1 = ctx.read_lines(ops_p)
+        if o1 and o1[-1] == "":
+            o1.pop()
+        n = max(len(i1), len(m1), len(o1))
+        base = len(impl)
+        ops += o1 + [""] * (n - len(o1))
+        impl += i1 + [None] * (n - len(i1))
+        model += m1 + [None] * (n - len(m1))
+        bad += [base + k for k in b1]
 
     # ---- direct property oracle on the implementation's own outputs
     n_bad, seen = 0, set()
@@ -103,13 +122,13 @@ def run(ctx):
     distinct = set()
     interleaved = 0
     for i, line in enumerate(impl):
-        if i >= len(ops) or not ops[i]:
+        if i >= len(ops) or not ops[i] or line is None:
             continue
         op = json.loads(ops[i])
         if op.get("op") != "run":
             continue
         ths = op["threads"]
-        kinds["+".join(sorted({t["kind"] for t in ths}))] += 1
+        kinds[op.get("level", "?") + ":" + "+".join(sorted({t["kind"] for t in ths}))] += 1
         sizes[len(ths)] += 1
         backends[op["backend"] + ("/strict" if op.get("strict") else "")] += 1
         succ_hist[line.split(" ", 1)[0]] += 1
